@@ -303,7 +303,27 @@ func (csm *conditionalStorageMiddleware) CopyObject(ctx context.Context, srcBuck
 	}
 	defer body.Close()
 
-	putResult, err := dstStorage.PutObject(ctx, dstBucket, dstKey, contentType, body, nil, nil)
+	// Carry metadata, tags and storage class exactly as a same-storage copy does.
+	putOpts := &storage.PutObjectOptions{}
+	if opts != nil && opts.ReplaceMetadata {
+		putOpts.Metadata = opts.Metadata
+	} else {
+		metadata := srcObject.Metadata
+		metadata.WebsiteRedirectLocation = nil
+		if opts != nil && opts.Metadata != nil {
+			metadata.WebsiteRedirectLocation = opts.Metadata.WebsiteRedirectLocation
+		}
+		putOpts.Metadata = &metadata
+	}
+	if opts != nil && opts.ReplaceTags {
+		putOpts.Tags = opts.Tags
+	} else {
+		putOpts.Tags = srcObject.Tags
+	}
+	if opts != nil {
+		putOpts.StorageClass = opts.StorageClass
+	}
+	putResult, err := dstStorage.PutObject(ctx, dstBucket, dstKey, contentType, body, nil, putOpts)
 	if err != nil {
 		return nil, err
 	}
